@@ -161,3 +161,57 @@ class is_zero_node:
 
     def ensures(result, branches, zero, node):
         return {'exactly label equality': iff(result, node == zero)}
+
+
+# ---- the entries of the node admittance matrix, for networks of any length (C01): sums over the incident branches
+
+import numpy as np
+from pyvc.spec import total
+from CircuitCalculator.Network.NodalAnalysis import node_analysis as na
+
+
+def finite_branch(g):
+    """A branch whose admittance is finite (impedance / admittance / lossy or ideal current source / open circuit)."""
+    kind = g.choice('kind', ['Y', 'I', 'open'])
+    name = g.label('id')
+    if kind == 'Y':
+        e = elm.admittance(name, g.complex('Y'))
+    elif kind == 'I':
+        e = elm.current_source(name, g.complex('I'), g.complex('Yi'))
+    else:
+        e = elm.open_circuit(name)
+    return Branch(g.label('n1'), g.label('n2'), e)
+
+
+@contract('CircuitCalculator.Network.NodalAnalysis.node_analysis.admittance_connected_to', props=['C01'], name='admittance_connected_to_any_length')
+class admittance_connected_to:
+    """Diagonal entry: the sum of the admittances of all branches incident to the node (each branch once)."""
+    def inputs(g):
+        return dict(branches=g.list('b', finite_branch), zero=g.label('zero'), node=g.label('node'))
+
+    def requires(branches, zero, node):
+        return valid(branches, zero)
+
+    def call(f, branches, zero, node):
+        return f(Network(branches, zero), node)
+
+    def ensures(result, branches, zero, node):
+        return {'sum over the incident branches': eq(result, total(branches, lambda b: b.element.Y if (b.node1 == node or b.node2 == node) else 0))}
+
+
+@contract('CircuitCalculator.Network.NodalAnalysis.node_analysis.admittance_between', props=['C01'], name='admittance_between_any_length')
+class admittance_between:
+    """Off-diagonal entry: the sum of the admittances of all branches between the two nodes (parallel branches add up)."""
+    def inputs(g):
+        return dict(branches=g.list('b', finite_branch), zero=g.label('zero'), n1=g.label('n1'), n2=g.label('n2'))
+
+    def requires(branches, zero, n1, n2):
+        return valid(branches, zero) and n1 != n2
+
+    def call(f, branches, zero, n1, n2):
+        return f(Network(branches, zero), n1, n2)
+
+    def ensures(result, branches, zero, n1, n2):
+        def between(b):
+            return (b.node1 == n1 and b.node2 == n2) or (b.node1 == n2 and b.node2 == n1)
+        return {'sum over the branches between the nodes': eq(result, total(branches, lambda b: b.element.Y if between(b) else 0))}
